@@ -1,8 +1,9 @@
 """C06 — controlled asyncio scheduler over the REAL async engine (no source hooks).
 
 `ChoiceLoop` is a `SelectorEventLoop` whose `_run_once` runs exactly ONE ready handle per iteration;
-which one is the schedule's decision (choice 0 = the head of the ready queue, i.e. what asyncio would
-do; every other choice is a deviation of cost 1). Every `await` that really suspends (callbacks
+which one is the schedule's decision (choice 0 = the sender that ran last continues if it has a ready
+handle, else the head of the ready queue; switching away from a sender that could continue is a
+deviation of cost 1 — a preemption in the CHESS sense; any other choice is free). Every `await` that really suspends (callbacks
 `await asyncio.sleep(0)` 0-2 times; the engine runs each callback group through `asyncio.gather`,
 i.e. in child tasks) is therefore a scheduling point at which any other ready task may run.
 
@@ -91,24 +92,38 @@ class AsyncHarness:
         self.step = 0
         self.probing = False
         self.active = False
+        self.last = None
         self.want_where = want_where
         self.map_files = {f["eng"], f["base"], f["event"], f["sm"]}
 
-    def decide(self, n, ready=None):
+    def decide(self, actors):
+        """`actors[j]` = sender that ready handle j belongs to (-1: the main task). Alternatives are
+        ordered [default] + the others in FIFO order; default = the first handle of the sender that ran
+        last (its chain of tasks continues, like a thread that is not preempted), else the queue head.
+        Deviating while the last sender could continue costs 1 (a preemption), otherwise 0."""
         k = self.step
         self.step += 1
+        n = len(actors)
+        d = 0
+        cost = 0
+        if self.last is not None and self.last in actors:
+            d = actors.index(self.last)
+            cost = 1
+        order = [d] + [j for j in range(n) if j != d]
         c = self.devs.get(k, 0)
         if c >= n and self.devs.get(-1) == 1:
             c %= n                 # sampled schedule: choices wrap around
         if c >= n:
             self.obs.map_notes.append(f"schedule diverged at decision {k}: choice {c} of {n}")
             c = 0
-        self.obs.trace.append((n, 1))
+        self.obs.trace.append((n, cost))
+        j = order[c]
         if self.want_where:
-            self.obs.where.append((k, c, n))
-        if c != 0 and self.mapper.open:
+            self.obs.where.append((k, c, n, self.last, actors[j]))
+        if c != 0 and cost == 1 and self.mapper.open:
             self.obs.window_preempt = True
-        return c
+        self.last = actors[j]
+        return j
 
     async def callback(self, sm, name, uid):
         if self.probing:
@@ -163,8 +178,11 @@ class ChoiceLoop(asyncio.SelectorEventLoop):
 
     def _run_once(self):
         ready = self._ready
-        if len(ready) > 1 and self._h.active:
-            c = self._h.decide(len(ready))
+        if len(ready) > 1:
+            if self._h.active:
+                c = self._h.decide([_actor_of(hd) for hd in ready])
+            else:
+                c = 0
             items = list(ready)
             ready.clear()
             ready.append(items.pop(c))
@@ -173,17 +191,18 @@ class ChoiceLoop(asyncio.SelectorEventLoop):
             ready.clear()
             ready.extend(items)
             ready.extend(new)
-        elif len(ready) > 1:
-            items = list(ready)
-            ready.clear()
-            ready.append(items.pop(0))
-            super()._run_once()
-            new = list(ready)
-            ready.clear()
-            ready.extend(items)
-            ready.extend(new)
         else:
+            if self._h.active and len(ready) == 1:
+                self._h.last = _actor_of(ready[0])
             super()._run_once()
+
+
+def _actor_of(handle):
+    ctx = getattr(handle, "_context", None)
+    try:
+        return ctx.get(ACTOR, -1) if ctx is not None else -1
+    except Exception:  # noqa: BLE001
+        return -1
 
 
 def run_schedule(scn: Scenario, devs: dict, want_where=False, timeout=20.0) -> Obs:
@@ -232,7 +251,11 @@ def run_schedule(scn: Scenario, devs: dict, want_where=False, timeout=20.0) -> O
         fut = loop.create_future()
         counter = [scn.n]
         h.active = True
-        tasks = [loop.create_task(sender(sm, i, fut, counter)) for i in range(scn.n)]
+        tasks = []
+        for i in range(scn.n):
+            cx = contextvars.copy_context()
+            cx.run(ACTOR.set, i)           # the sender identity is in the task's context from its first step
+            tasks.append(loop.create_task(sender(sm, i, fut, counter), context=cx))
         try:
             await asyncio.wait_for(fut, timeout)
         except asyncio.TimeoutError:
